@@ -49,6 +49,16 @@ Theorem C04_aff_op_tree : forall fo n m g t, wf_aff g -> a_in g = n -> outdim g 
 Proof. exact cop_l_cwft. Qed.
 Theorem C04_reduce : forall n m t, cwft n m t -> cwft n m (creduce t).
 Proof. exact creduce_cwft. Qed.
+(* the lifting without pruning (what compose::<false> does) for the operator schemas as well *)
+Theorem C04_lift_unpruned : forall fo n m t g, cwft n m t -> pwf n m g -> pexists g = true -> cwft n m (clift (op_schema fo) g t).
+Proof. exact clift_op_cwft. Qed.
+(* the arena-shaped operations used above denote the ptree operations of C02 / C07 / C08 *)
+Theorem C04_ops_denote :
+  (forall a t, erase (capply_func a t) = apply_func a (erase t)) /\
+  (forall h t, erase (cmap_terms h t) = map_terms h (erase t)) /\
+  (forall s L t, pshape L -> erase (clift s L t) = lift s (erase t) L) /\
+  (forall n m t, cwf n m t -> erase (creduce t) = reduce (erase t)).
+Proof. exact ops_denote. Qed.
 (* the pruning core, for any schema whose update functions produce the right shapes, at any node and counter *)
 Theorem C04_generic_prune : forall o tol s g kk mL n m m',
   (forall tf, wf_aff tf -> a_in tf = n -> outdim tf = m -> schema_ok s tf kk mL n m') ->
@@ -134,6 +144,8 @@ Print Assumptions C04_neg.
 Print Assumptions C04_tree_op_aff.
 Print Assumptions C04_aff_op_tree.
 Print Assumptions C04_reduce.
+Print Assumptions C04_lift_unpruned.
+Print Assumptions C04_ops_denote.
 Print Assumptions C04_generic_prune.
 Print Assumptions C04_step.
 Print Assumptions C04_history.
